@@ -379,6 +379,37 @@ def rule_cgdescent(F, R):
                 ivar = n["d"]
     R.check(ivar is not None, rule, "cgdescent do_get interval", f.loc(), "interval built on (state0, descent, step_size, state)",
             "interval not built on the caller's (state0, descent, step_size, state)")
+    # "the interval has not moved since it was built": killed by anything that may write it (by-reference argument, non-const method,
+    # a lambda that captured it by reference being called); while it holds, the step_size parameter still equals interval.step_size
+    from ..cfg import must_dataflow
+    cfg7 = f.cfg
+    lam_vars = {v["d"] for v in f.nodes() if v["k"] == "var" and v.get("c") and skip(v["c"][0])["k"] == "lambda" and
+                any(c_.get("d") == ivar and c_.get("ref", True) for c_ in skip(v["c"][0]).get("caps", ()))}
+    psz = f.param("step_size")["d"] if f.param("step_size") else None
+
+    def telem7(facts, e):
+        if e.kind == "init" and e.info.get("d") == ivar:
+            facts.add("unmoved")
+            return
+        n_ = e.node
+        if e.kind != "node" or n_ is None:
+            return
+        if (n_["k"] == "var" and n_.get("d") == ivar) or (n_["k"] == "declstmt" and any(v_ is not None and v_.get("k") == "var" and v_.get("d") == ivar for v_ in n_.get("c", ()))):
+            facts.add("unmoved")
+            return
+        if n_["k"] == "call":
+            pk = n_.get("pk", "")
+            for j, a_ in enumerate(args(n_)):
+                if j < len(pk) and pk[j] in "rp" and ref_decl(a_) == ivar:
+                    facts.discard("unmoved")
+            if n_.get("ck") == "mem" and not n_.get("cconst") and n_.get("c") and ref_decl(n_["c"][0]) == ivar:
+                facts.discard("unmoved")
+            if n_.get("op") == "()" and n_.get("c") and skip(n_["c"][0])["k"] == "ref" and skip(n_["c"][0]).get("d") in lam_vars:
+                facts.discard("unmoved")
+        a_ = assignment(n_)
+        if a_ and (ref_decl(a_[0]) in (psz, ivar)):
+            facts.discard("unmoved")
+    IN7, before7 = must_dataflow(cfg7, set(), telem7)
     nret = 0
     for n in f.nodes():
         if n["k"] == "return" and f.parent_of(n) is not None:
@@ -391,6 +422,10 @@ def rule_cgdescent(F, R):
             nret += 1
             s = skip(step)
             good = s["k"] == "mem" and s["n"] == "step_size" and ref_decl(s["c"][0]) == ivar
+            if not good and s["k"] == "ref" and s.get("d") == psz and psz is not None:
+                w7 = cfg7.where_enclosing(n)
+                fb = before7(*w7) if w7 else None
+                good = fb is not None and "unmoved" in fb       # the parameter the untouched interval was built from
             R.check(good, rule, "cgdescent return@%s" % f.loc(n), f.loc(n), "returns interval.step_size",
                     "success return does not report the interval's evaluated step: " + pp(n))
     R.floor(rule + "/cgdescent-returns", nret, 6, "non-failure returns")
